@@ -214,6 +214,14 @@ pub fn drive(tier: &str) -> i32 {
             .collect(),
     ));
     groups.push((
+        format!("statement soups: all sequences of <= {} statements over a {}-statement menu", if quick { 2 } else { 3 }, vcore::slots::SOUP_STATEMENTS.len()),
+        vcore::slots::statement_soups(if quick { 2 } else { 3 }, 30),
+    ));
+    groups.push((
+        format!("block skeletons: every block construct x optional parts x empty/comment/statement bodies, nesting depth {}", if quick { 1 } else { 2 }),
+        vcore::slots::block_skeletons(if quick { 1 } else { 2 }).into_iter().map(|b| format!("X = 0\n{}PRINT \"end\"\n", b)).collect(),
+    ));
+    groups.push((
         "harvested texts (accepted ones are run; x stdin menu when they read the console)".into(),
         h.texts
             .iter()
